@@ -79,8 +79,15 @@ func (c *ctx) ucExhaustive(maxKeys, maxSigs int) {
 				uc := types.UnlockConditions{Timelock: tl, PublicKeys: keys, SignaturesRequired: uint64(req)}
 				p := types.SpendPolicy{Type: types.PolicyTypeUnlockConditions(uc)}
 				shape := fmt.Sprintf("uc(%s,%d,tl=%d)", keyStr, req, tl)
-				if tl == 0 {
-					c.ucAddress(shape, uc)
+				c.ucAddress(shape, uc)
+				if tl != 0 {
+					// the address commits to the time lock: the same keys without it are another address
+					noTL := uc
+					noTL.Timelock = 0
+					b.Eval(1)
+					if uc.UnlockHash() == noTL.UnlockHash() || p.Address() == (types.SpendPolicy{Type: types.PolicyTypeUnlockConditions(noTL)}).Address() {
+						b.Violate("C14/address/unlock-conditions-timelock-not-committed", fmt.Sprintf("%s has the same address as the same conditions without the time lock", shape), map[string]any{"shape": shape})
+					}
 				}
 				heights := []uint64{lockH}
 				hl := []string{"h+0"}
